@@ -19,6 +19,14 @@ def str_tree_to_card(t):
         return z3.If(t.arg(0), a, b)
     return None
 
+def str_tree_to_atom(t, ty):
+    if z3.is_string_value(t): return T.atom_const(ty, t.as_string())
+    if z3.is_app(t) and t.decl().kind() == z3.Z3_OP_ITE:
+        a, b = str_tree_to_atom(t.arg(1), ty), str_tree_to_atom(t.arg(2), ty)
+        if a is None or b is None: return None
+        return z3.If(t.arg(0), a, b)
+    return None
+
 def is_pystr(sv):
     return sv.ty == T.Str and z3.is_string_value(sv.t)
 
@@ -76,6 +84,8 @@ class ExprMixin:
                 return SV(ty, r)
         if isinstance(ty, T.Atom) and is_pystr(sv):
             return SV(ty, T.atom_const(ty, sv.t.as_string()))
+        if isinstance(ty, T.Atom) and sv.ty == T.Str and str_tree_to_atom(sv.t, ty) is not None:
+            return SV(ty, str_tree_to_atom(sv.t, ty))
         if isinstance(ty, T.List) and sv.ty == Display:
             arr = fresh_sort("elems", z3.ArraySort(z3.IntSort(), T.sort_of(ty.t)))
             elems = []
